@@ -68,6 +68,7 @@ type lbEngine struct {
 	memo    map[string]*lstate
 	lostDumped bool
 	recorded   map[string]bool
+	scanFns    map[string]bool // functions whose loops are byte scans: checked for unit steps and exhaustive exits
 	rootPre    []string
 	owner   map[atomID]ssa.Value
 	live    map[*ssa.Function]map[*ssa.BasicBlock]map[ssa.Value]bool
@@ -80,6 +81,8 @@ var lbRootPre = map[string]struct {
 }{
 	"QuoteSQLIdent.s": {1, "identifier names are non-empty: the lexer rejects `` (\"invalid empty identifier\") and the quoting contract (C15) is stated for non-empty names"},
 }
+
+type ghostKey struct{ b *ssa.BasicBlock }
 
 type lenKey struct{ v any }
 type primeKey struct{ a atomID }
@@ -588,7 +591,13 @@ func (e *lbEngine) run(in *lbInst, entry *lstate) []lbRet {
 		if res != nil {
 			res = e.boolPhiGuards(in, b, ins, res)
 		}
-		return e.dropDead(fn, b, res)
+		res = e.dropDead(fn, b, res)
+		if hasBack && res != nil && e.scanFns[fn.Name()] {
+			// ghost: the cursor at the start of this iteration
+			g := e.at.get(ghostKey{b}, fmt.Sprintf("%s.iter%d.pos", fn.Name(), b.Index), false)
+			res = res.eliminate(e.at, map[atomID]bool{g: true}).eq(linAtom(g), linAtom(e.P))
+		}
+		return res
 	}
 	for iter := 0; iter < 4000; iter++ {
 		var b *ssa.BasicBlock
@@ -631,7 +640,10 @@ func (e *lbEngine) run(in *lbInst, entry *lstate) []lbRet {
 		if e.trace && e.record && os.Getenv("VERIF_LB_LIVEDEBUG") != "" {
 			fmt.Printf("LB FINAL %s b%d (visits %d): %s\n", fn.Name(), b.Index, visits[b], e.at.showState(st))
 		}
-		e.execBlock(in, b, st, &rets)
+		outs := e.execBlock(in, b, st, &rets)
+		if e.scanFns[fn.Name()] && e.record {
+			e.scanObligations(in, fn, b, outs)
+		}
 	}
 	return rets
 }
@@ -1179,6 +1191,9 @@ func (e *lbEngine) indexOb(in *lbInst, st *lstate, instr ssa.Instruction, x, idx
 		return
 	}
 	n := e.lenLin(in, x)
+	if i.isConst() && n.isConst() && i.k >= 0 && i.k < n.k {
+		return // a constant index into an array of constant length (compiler-generated literals)
+	}
 	e.require(in, st, instr, "C03/R6", "index within bounds", []string{"index >= 0", "index < length"},
 		[]lin{i, n.sub(i).add(linConst(-1))})
 }
@@ -1554,6 +1569,83 @@ func (e *lbEngine) project(s *lstate, keep map[atomID]bool) *lstate {
 	return s.eliminate(e.at, drop)
 }
 
+// scanObligations: for the loops of a byte-scanning function, (1) every back edge is taken with the
+// cursor exactly one byte further than at the start of the iteration, (2) every edge that leaves the
+// loop without returning is taken only at end of input.
+func (e *lbEngine) scanObligations(in *lbInst, fn *ssa.Function, b *ssa.BasicBlock, outs []*lstate) {
+	for _, l := range naturalLoops(fn) {
+		if !l.body[b] {
+			continue
+		}
+		g := e.at.get(ghostKey{l.header}, fmt.Sprintf("%s.iter%d.pos", fn.Name(), l.header.Index), false)
+		last := b.Instrs[len(b.Instrs)-1]
+		for si, s := range b.Succs {
+			if si >= len(outs) || outs[si] == nil {
+				continue
+			}
+			st := outs[si]
+			switch {
+			case s == l.header:
+				d := linAtom(e.P).sub(linAtom(g))
+				e.requireAt(st, fn, last, "C14/R8", fmt.Sprintf("%s: scan loop — each iteration that continues advances the cursor by exactly one byte", funcName(fn)),
+					[]string{"step >= 1", "step <= 1"}, []lin{d.add(linConst(-1)), linConst(1).sub(d)})
+			case !l.body[s]:
+				// leaving the loop on a match (the true edge of `bytes at the cursor == terminator`) is the success exit
+				if iff, ok := last.(*ssa.If); ok && si == 0 {
+					if bo, ok := iff.Cond.(*ssa.BinOp); ok && bo.Op == token.EQL && isStringType(bo.X.Type()) {
+						isParam := func(v ssa.Value) bool { _, ok := v.(*ssa.Parameter); return ok }
+						if isParam(bo.X) || isParam(bo.Y) {
+							continue
+						}
+					}
+				}
+				// leaving the loop otherwise: only at end of input
+				room := linAtom(e.P).sub(linAtom(e.N)).add(linConst(-1))
+				what := "pos >= len(Buffer)"
+				for _, p := range fn.Params {
+					if isStringType(p.Type()) {
+						room = room.add(e.lenLin(in, p)) // pos + len(terminator) > len(Buffer): it no longer fits
+						what = "pos + len(" + p.Name() + ") > len(Buffer)"
+						break
+					}
+				}
+				if what == "pos >= len(Buffer)" {
+					room = room.add(linConst(1))
+				}
+				e.requireAt(st, fn, last, "C14/R8", fmt.Sprintf("%s: scan loop — the search gives up only where the terminator no longer fits", funcName(fn)),
+					[]string{what}, []lin{room})
+			}
+		}
+	}
+}
+
+func (e *lbEngine) requireAt(st *lstate, fn *ssa.Function, instr ssa.Instruction, rule, construct string, what []string, need []lin) {
+	key := rule + " " + construct
+	ob := e.obs[key]
+	if ob == nil {
+		ob = &lbOb{rule: rule, construct: construct, where: e.w.pos(lastPos(instr.Block())), details: map[string]bool{}}
+		e.obs[key] = ob
+		e.obOrder = append(e.obOrder, key)
+	}
+	ob.total++
+	var failed []string
+	for i, l := range need {
+		if !st.proves(e.at, lfact{l: l}) {
+			failed = append(failed, fmt.Sprintf("%s (needs %s >= 0)", what[i], e.at.show(normGE(l))))
+		}
+	}
+	if len(failed) > 0 {
+		ob.failed++
+		d := fmt.Sprintf("not proved on the edge from block %d (%s): %s; reached through %s", instr.Block().Index, e.w.pos(lastPos(instr.Block())), strings.Join(failed, ", "), e.context())
+		if len(ob.details) < 3 {
+			ob.details[d] = true
+		}
+		if e.trace {
+			fmt.Printf("LB FAIL %s\n   %s\n   state %s\n", key, d, e.at.showState(st))
+		}
+	}
+}
+
 // ---- roots --------------------------------------------------------------------------------------
 
 func (e *lbEngine) runRoot(fn *ssa.Function, bools map[string]bool) {
@@ -1650,6 +1742,9 @@ func ruleC03R6(w *World, r *Report) {
 	r.count("functions interpreted", len(e.visited))
 	r.count("abstract steps", e.steps)
 	for _, ob := range e.results() {
+		if ob.rule != rule {
+			continue
+		}
 		if ob.failed == 0 {
 			r.ok(rule, ob.construct, ob.where, fmt.Sprintf("proved in %d context(s)", ob.total))
 		} else {
@@ -1689,3 +1784,105 @@ func ruleC03R6(w *World, r *Report) {
 }
 
 func verboseRule() string { return os.Getenv("VERIF_VERBOSE") }
+
+// ruleC14R8: comment scanning is exhaustive.
+func ruleC14R8(w *World, r *Report) {
+	const rule = "C14/R8"
+	r.rule(rule, "comment scanning is exhaustive: in (*Lexer).skipCommentUntil (interpreted from (*Lexer).skipComment in the LEXBOUNDS domain) every iteration of the search loop that continues has moved the cursor by exactly one byte, after testing for the terminator at the position it leaves, and the loop gives up without a match only when the terminator no longer fits between the cursor and the end of input — so a terminator at any position, including the very end, is found", 2)
+	defer debug.SetGCPercent(debug.SetGCPercent(1000))
+	e := w.newLexBounds()
+	e.scanFns = map[string]bool{"skipCommentUntil": true}
+	e.trace = verboseRule() != "" && verboseRule() != "1" && strings.HasPrefix(rule, verboseRule())
+	root := w.fn(w.Mem, "(*Lexer).skipComment")
+	if root == nil || w.fn(w.Mem, "(*Lexer).skipCommentUntil") == nil {
+		r.errorf("(*Lexer).skipComment / skipCommentUntil not found")
+		return
+	}
+	e.runRoot(root, map[string]bool{"noPanic": false})
+	e.runRoot(root, map[string]bool{"noPanic": true})
+	for _, ob := range e.results() {
+		if ob.rule != rule {
+			continue
+		}
+		if ob.failed == 0 {
+			r.ok(rule, ob.construct, ob.where, fmt.Sprintf("proved in %d context(s)", ob.total))
+		} else {
+			var ds []string
+			for d := range ob.details {
+				ds = append(ds, d)
+			}
+			sort.Strings(ds)
+			r.bad(rule, ob.construct, ob.where, fmt.Sprintf("%d of %d context(s): %s", ob.failed, ob.total, strings.Join(ds, " | ")))
+		}
+	}
+	// the match test of each iteration compares the bytes at the cursor with the terminator
+	fn := w.fn(w.Mem, "(*Lexer).skipCommentUntil")
+	matched := false
+	for _, b := range fn.Blocks {
+		for _, in := range b.Instrs {
+			bo, ok := in.(*ssa.BinOp)
+			if !ok || bo.Op != token.EQL || !isStringType(bo.X.Type()) {
+				continue
+			}
+			for _, side := range [][2]ssa.Value{{bo.X, bo.Y}, {bo.Y, bo.X}} {
+				if side[1] != ssa.Value(fn.Params[1]) {
+					continue
+				}
+				// side[0]: l.slice(0, len(end)) or l.Buffer[l.pos : l.pos+len(end)]
+				switch x := side[0].(type) {
+				case *ssa.Call:
+					if c := x.Call.StaticCallee(); c != nil && c.Name() == "slice" {
+						if k, ok := constInt(x.Call.Args[1]); ok && k == 0 {
+							matched = true
+						}
+					}
+				case *ssa.Slice:
+					if f, _, ok := w.lexerField(x.Low); ok && f == "pos" {
+						matched = true
+					}
+				}
+			}
+		}
+	}
+	if matched {
+		r.ok(rule, "(*Lexer).skipCommentUntil: terminator test at the cursor", w.pos(fn.Pos()), "the bytes at the cursor are compared with the terminator `end`")
+	} else {
+		r.bad(rule, "(*Lexer).skipCommentUntil: terminator test at the cursor", w.pos(fn.Pos()), "no comparison of the bytes at the cursor with the terminator `end` found")
+	}
+}
+
+// ruleC15R5: the quoting helpers never index outside their operand (the token/quote.go and char/ part of C03/R6).
+func ruleC15R5(w *World, r *Report) {
+	const rule = "C15/R5"
+	r.rule(rule, "QuoteSQLString, QuoteSQLBytes, QuoteSQLIdent and the char helpers never index or slice outside their operand, for any argument (QuoteSQLIdent: any non-empty name) — LEXBOUNDS over token/quote.go and char/", 8)
+	defer debug.SetGCPercent(debug.SetGCPercent(1000))
+	e := w.newLexBounds()
+	e.trace = verboseRule() != "" && verboseRule() != "1" && strings.HasPrefix(rule, verboseRule())
+	for _, fn := range w.ModFns {
+		if fn.Parent() != nil || fn.Synthetic != "" || !e.inScope(fn) || e.visited[fn] || fnPkgPath(fn) == modRoot {
+			continue
+		}
+		e.runRoot(fn, nil)
+	}
+	for _, p := range uniqSorted(e.rootPre) {
+		r.note("root precondition: %s", p)
+	}
+	for _, ob := range e.results() {
+		if ob.rule != "C03/R6" {
+			continue
+		}
+		if ob.failed == 0 {
+			r.ok(rule, ob.construct, ob.where, fmt.Sprintf("proved in %d context(s)", ob.total))
+		} else {
+			var ds []string
+			for d := range ob.details {
+				ds = append(ds, d)
+			}
+			sort.Strings(ds)
+			r.bad(rule, ob.construct, ob.where, fmt.Sprintf("%d of %d context(s): %s", ob.failed, ob.total, strings.Join(ds, " | ")))
+		}
+	}
+	for _, n := range uniqSorted(e.notes) {
+		r.undecided(rule, "engine limit: "+n, "-", "the interpretation lost track here")
+	}
+}
